@@ -306,6 +306,19 @@ def node_run(arg):
         tok = HyperscanTokenizer(extractors=exts, cache_dir=D)
         tok.hyperscan_db
         out["texts"] = _eval_texts(tok, job["texts"], bool(step.get("full")))
+        # a process often builds the tokenizer more than once (per request, per
+        # worker thread): every further instance on the same directory must agree
+        for _ in range(int(step.get("instances", 1)) - 1):
+            tok2 = HyperscanTokenizer(extractors=exts, cache_dir=D)
+            again = _eval_texts(tok2, job["texts"][:4], False)
+            for a, b in zip(again, out["texts"]):
+                if "cand_err" in a or "cits_err" in a:
+                    out["texts"][0] = dict(out["texts"][0], cand_err=a.get("cand_err") or a.get("cits_err"),
+                                           cand_tb=a.get("cand_tb") or a.get("cits_tb"))
+                    break
+                if a.get("cand_d") != b.get("cand_d") or a.get("cits_d") != b.get("cits_d"):
+                    out["texts"][0] = dict(out["texts"][0], cand_d="second-instance-differs")
+                    break
         for it in out["texts"]:
             if "cand_err" in it or "cits_err" in it:
                 out["status"] = "raised"
@@ -1134,6 +1147,8 @@ class RunGen:
                 life["crash"] = self.crash_plan(fg)
             if fg.random() < 0.2:
                 life["pre_instance"] = fg.choice([1, 2, 5])
+            if fg.random() < 0.25:
+                life["instances"] = fg.choice([2, 3])
             if fg.random() < 0.15:
                 life["clock"] = fg.choice([3600.0, -3600.0, 86400.0 * 400, -86400.0 * 400,
                                            86400.0 * 3650, -86400.0 * 3650])
@@ -1233,7 +1248,7 @@ class RunGen:
         for ci, cell in enumerate(cells):
             jobs.append({"seed": seeds.h64(root, "grid", ci), "kind": "grid", "cell": ci,
                          "ext": ext, "chunk": 65536, "texts": texts, "classes": dict(classes),
-                         "steps": [{"k": "life"}, dict(cell, k="fault"), {"k": "life"}, {"k": "life"}]})
+                         "steps": [{"k": "life"}, dict(cell, k="fault"), {"k": "life", "instances": 2}, {"k": "life"}]})
         # crash points of a clean first lifetime: every operation, before and after,
         # and every write-length class
         for opk in range(1, 9):
